@@ -1047,8 +1047,12 @@ inline bool Transport::setReadMode(SessionId sid, ReadMode mode)
       oldMode = it->second;
     }
 
-    // If NOT switching from Sync to Async, update mode directly
-    if (!(oldMode == ReadMode::Sync && mode == ReadMode::Async))
+    // If NOT switching to Async from a mode that can leave bytes buffered,
+    // update mode directly. Sync buffers; Disabled keeps whatever an earlier
+    // Sync phase buffered (Sync->Disabled does not flush), so Disabled->Async
+    // must take the ordered flush below as well — otherwise later arrivals
+    // reach the data callback ahead of the still-buffered bytes.
+    if (!(oldMode != ReadMode::Async && mode == ReadMode::Async))
     {
       _impl->readModes[sid] = mode;
 
@@ -1064,9 +1068,10 @@ inline bool Transport::setReadMode(SessionId sid, ReadMode mode)
     }
   } // syncMutex released
 
-  // Step 2: Sync→Async transition with ordered flush.
-  // Keep mode as Sync during flush so the I/O thread continues buffering
-  // any data that arrives mid-flush. Drain in a loop until empty.
+  // Step 2: Sync→Async (or Disabled→Async) transition with ordered flush.
+  // Keep the old mode during flush so the I/O thread continues buffering
+  // (Sync) or dropping (Disabled) data that arrives mid-flush. Drain in a
+  // loop until empty.
   DataCallback cb;
   {
     std::lock_guard<std::mutex> cbLk(_impl->callbackMutex);
